@@ -38,6 +38,41 @@ C18_DAG5_PART = (G, "gosym_part", dict(name="c18_dag5", entry="pkg/packaging.Ver
                                extra_quick=("-max-paths", "4000000"), extra_thorough=("-max-paths", "4000000"),
                                required_sites=("terminates-without-panic", "cycle-or-conflict-rejected", "acyclic-accepted", "shared-package-loaded-once"), assumptions=C18_ASSUME,
                                desc="DAGs over 5 packages with ascending / descending import lists, one optional arbitrary extra edge listed first or last and a symbolic namespace on the last package" + C18_TERM_DESC))
+# C18 / C11 (a namespace claimed by two different directories): the package directories carry NAMES related in the ways a comparison of two locations can go wrong
+C18_DIRS_PART = (G, "gosym_part", dict(name="c18_conflict_dirs", entry="pkg/packaging.VerifC18ConflictDirs", args_quick=(4, 1, 0), args_thorough=(4, 2, 1),
+                               extra_quick=("-max-paths", "300000"), extra_thorough=("-max-paths", "2000000"),
+                               required_sites=("loader-does-not-panic", "namespace-claimed-by-two-directories-rejected", "distinct-namespaces-in-distinct-directories-accepted",
+                                               "package-read-from-its-own-directory", "each-reachable-package-listed-once"),
+                               assumptions=C18_ASSUME + ["directory pairs: units/Units (letter case only), units/units2 (prefix), units/lib_units (suffix), va/units / vb/units (same last element), "
+                                                         "Vendor/units / vendor/units (parents differ in case only), units/other; the native replays need a case-sensitive file system",
+                                                         "import DAGs (node i imports a subset of the later nodes, every list order); cycles are decided by c18_graph / c18_dag"],
+                               desc="import DAGs over 4 packages in every list order where two packages (any ordered pair of imported packages; thorough: also the root) live in a PAIR OF DIRECTORIES "
+                                    "whose names are related (case-only, prefix, suffix, same leaf, case-only parent, unrelated) and the namespace of one (thorough: both) of them is symbolic: real LoadPackage "
+                                    "fails iff two reachable packages declare the same namespace; otherwise every import is resolved to the package read from ITS OWN directory and every reachable package "
+                                    "is listed exactly once (no directory silently stands in for another).  Under C11: such a package must not generate (generateImpl stops at the LoadPackage error: c11_all_or_nothing)"))
+# C12 (diagnostics of a package that fails to LOAD): the loader's errors bypass the sorting error sink
+C12_LOAD_PART = (G, "gosym_part", dict(name="c12_load_diagnostics_map_order", entry="pkg/packaging.VerifC12LoadDiagnostics", args_quick=(4,), args_thorough=(4,),
+                               required_sites=("failing-load-is-rejected", "every-map-range-covered"),
+                               assumptions=C18_ASSUME + ["map iteration order is a path decision (verifSetMapOrder(-2-i)): one map range of the loader at a time iterates in another order; natively Go "
+                                                         "randomises the order, so a reported dependence is confirmed by repeating the load up to 64 times",
+                                                         "the unchanged loader never ranges over a map: the site load-diagnostics-independent-of-map-iteration-order is then not reached (not a required site)"],
+                               desc="real LoadPackage on 8 failing import graphs (cycles through 2 / 3 / 4 namespaces, entered directly or from outside, with already collected bystanders; a namespace "
+                                    "claimed by sibling / cousin directories; a chain beyond the nesting limit; an import directory that does not exist): the error text is identical when any one map "
+                                    "range executed by the loader iterates in a different order"))
+# C11 / C09 (every language rule is enforced in imports and previous versions before anything is written): the REAL pipeline on a package tree
+C11_RULES_PART = (G, "gosym_part", dict(name="c11_rule_placement", entry="internal/cmd.VerifC11RulePlacement", oracle=True, args_quick=(0,), args_thorough=(1,),
+                               required_sites=("no-panic", "rule-violation-in-any-package-fails", "rule-violation-in-any-package-writes-nothing", "error-names-a-file-of-the-offending-package",
+                                               "valid-package-tree-succeeds", "valid-package-tree-writes-output"),
+                               assumptions=["gosym: the only seam is updatePackageInfoFromArgs (koanf); generateImpl, LoadPackage, readPackageInfo, fetchAndCachePackages, ParsePackageContents / "
+                                            "ParseYamlInDir and the YAML layer (manifests and models are yaml.Node documents on the virtual file system; type strings and expressions through the native "
+                                            "participle oracle), every pass of dsl.Validate, ValidateEvolution, outputJson, WriteFileIfNeeded are real; natively the marshalled documents are real files",
+                                            "the native replay runs its cases in one process and resets the package-level koanf instance before each (every case is a one-shot run)",
+                                            "23 rule violations, at least one per pass of dsl.Validate that reports errors; JSON output only; output directory populated (thorough: or empty)"],
+                               desc="package tree main -> dep with previous versions none | v1 (-> dep) | v2 (-> depold), all holding the same valid model (2 records, enum, union alias, protocol): one of 23 "
+                                    "rule violations (names of types / fields / computed fields / steps / enum symbols / type parameters badly cased or duplicated, reserved name, unknown types, stream "
+                                    "outside a step, non-primitive map key, unused type parameter, generic protocol, reference cycle, union rules, duplicate dimension name, ill-typed computed field) "
+                                    "in one symbolic package (the package, its import, a previous version, a previous version's own import): the real generateImpl fails, names a file of the "
+                                    "offending package and writes nothing below the output directory; the unmodified tree generates"))
 
 
 def c18_key(aid, events, outs):
@@ -193,6 +228,18 @@ C10_DEFUSE_PART = (G, "gosym_part", dict(name="c10_def_use", entry="internal/zzv
                                               "namespace}: Validate terminates, does not panic, rejects the model and names the file"))
 
 
+C10_CYCLE_SPELLINGS_PART = (G, "gosym_part", dict(name="c10_alias_cycle_spellings", entry="internal/zzverif.C10AliasCycleSpellings", args_quick=(0,), args_thorough=(1,),
+                                         extra_thorough=("-max-paths", "400000"),
+                                         required_sites=("validate-terminates", "validate-does-not-panic", "violation-rejected", "error-names-offending-file"),
+                                         assumptions=C10_ASSUME + ["termination = dsl.Validate completes within 200 nested calls and 3 000 000 SSA instructions (verifBounded); natively a child process with a stack and time limit",
+                                                                   "link spellings: plain reference, one-element sequence `[B]`, single explicitly tagged case `!union {only: B}`, `B?`, `B*`, `string->B`; "
+                                                                   "cycle lengths 1-3 (length 3: one spelling for all links; quick: the second link of a length-2 cycle is plain / one-element list / "
+                                                                   "single-case union / same as the first, main namespace only; thorough: every pair x {main, imported})"],
+                                         desc="alias reference cycles whose links are SPELLED in 6 ways (the wrappers that resolve transparently - one-element list, single-case union - and "
+                                              "optional / vector / map value), combined with a use of a symbolic member of the cycle as map key, enum base, flags base, type argument, conversion "
+                                              "target, record field, union case next to another member, vector item: Validate terminates, does not panic, rejects the model and names the file"))
+
+
 def c10_budget_key(aid, events, outs):
     # one stable key per family for the family the unchanged tree is known to fail on; the others are keyed per n so that
     # every size that exceeds its budget is replayed (and reported) on its own
@@ -309,6 +356,20 @@ C13_YAML_PART = (G, "gosym_part", dict(name="c13_yaml_spellings", entry="interna
                                        desc="the same model written with shorthand type strings and with expanded YAML type syntax goes through the real YAML layer, dsl.Validate and the schema writer: "
                                             "both spellings are accepted or both rejected, and the embedded schema text is identical"))
 
+C13_YAML_BACKENDS_PART = (G, "gosym_part", dict(name="c13_yaml_spellings_python", entry="internal/zzverif.C13YamlPython", args_quick=(), args_thorough=(), oracle=True,
+                                       required_sites=("both-spellings-accepted-or-both-rejected", "python-types-identical-for-both-spellings", "python-binary-identical-for-both-spellings",
+                                                       "python-ndjson-identical-for-both-spellings", "python-package-identical-for-both-spellings",
+                                                       "cpp-sources-identical-for-both-spellings", "matlab-package-identical-for-both-spellings"),
+                                       assumptions=YAML_ASSUME + [
+                                           "spelling pairs (T over int / string / record Foo, K over string / int): T? = [null, T]; T?* = !vector {items: [null, T]}; T?*3; K->T? = !map {keys, values: "
+                                           "[null, T]}; T?[] / T?[x, y] / T?[2, 3] = !array {items: [null, T] (, dimensions)}; T* = !vector {items: T}; !vector {items: T?} = !vector {items: [null, T]}; "
+                                           "Box<T?> = !generic {name: Box, args: [[null, T]]}; T?*? = [null, !vector {items: [null, T]}] - the shorthand builds a NESTED tree (container of an optional), "
+                                           "the expanded syntax a FLAT one (container carrying the cases); the type is used as record field, protocol step and stream item",
+                                           "C++: the types / protocols / binary / NDJSON writers (no HDF5, mocks, CMake); Python and MATLAB: the complete generators; static files stubbed under gosym"],
+                                       desc="the same package written with shorthand and with expanded syntax for optional-bearing element types goes through the real YAML layer, dsl.Validate and the "
+                                            "complete real Python generator (plus the C++ writers and the MATLAB generator): both accepted or both rejected, and every generated file - types.py, binary.py, "
+                                            "ndjson.py, protocols.py, __init__.py, the C++ sources, the MATLAB package - is byte-identical for the two spellings"))
+
 C10_FORMS = {
     0: (G, "gosym_part", dict(name="c10_computed_form0", entry="internal/zzverif.C10Computed", args_quick=(1, 0), args_thorough=(1, 0), key_fn=c10_key,
                                required_sites=("validate-does-not-panic",), assumptions=C10_ASSUME,
@@ -418,6 +479,20 @@ C04_EMBED_PART = (G, "gosym_part", dict(name="c04_embed", entry="internal/zzveri
                                         assumptions=["model family of C04 with concrete lengths; comments on/off; primitive names symbolic"],
                                         desc="the real C++, Python and MATLAB protocol emitters embed GetProtocolSchemaString(P) verbatim exactly once as the writer's schema, "
                                              "readers refer to the writer's schema, and the emitted C++ VersionFromSchema compares with schema_ and ends in a throw"))
+
+C04_PURE_PART = (G, "gosym_part", dict(name="c04_generators_pure", entry="internal/zzverif.C04GeneratorsPure", args_quick=(0,), args_thorough=(1,),
+                                       required_sites=("generator-leaves-the-schema-unchanged", "generator-leaves-the-model-unchanged", "generator-leaves-the-model-json-unchanged",
+                                                       "cpp-embeds-the-validated-schema", "python-embeds-the-validated-schema", "matlab-embeds-the-validated-schema"),
+                                       assumptions=["model: a !flags and an !enum definition whose three symbols carry a symbolic assignment of the values 1, 2, 4 (declared ascending, descending, mixed; "
+                                                    "thorough: independent assignments), with or without explicit base, a record with optional / union / vector fields, an alias of a map, a protocol "
+                                                    "with a stream and a nullable union step",
+                                                    "C++ = the types, protocols, binary and NDJSON writers (no HDF5, mocks, CMake, embedded headers); Python = python.Generate; MATLAB = matlab.Generate; "
+                                                    "static files stubbed under gosym; the three backends run in all 6 orders on ONE resolved model, as one `yardl generate` does",
+                                                    "the model as data = every list of it in declaration order (enum values, fields, cases, steps, definitions) and the engine's structural encoding/json of "
+                                                    "the namespaces (validated byte-for-byte by the native replays)"],
+                                       desc="running a backend does not change the model: after each of the three backends (symbolic order) GetProtocolSchemaString, the model's lists and its JSON are what "
+                                            "they were after validation; and in every order each backend embeds exactly the schema text of the model as validated (protocols.cc, protocols.py, "
+                                            "ProtoWriterBase.m): the schema text is the same for every target language"))
 
 C04_DETERMINES_PART = (G, "gosym_part", dict(name="c04_determines", entry="internal/zzverif.C04Determines", args_quick=(1,), args_thorough=(0,),
                                required_sites=("wire-edit-changes-schema", "same-model-same-schema"), assumptions=C04_ASSUME,
@@ -740,8 +815,35 @@ PARTS = {
         (G, "gosym_part", dict(name="c19_conversion_chains_cast", entry="internal/zzverif.C19Conversions", args_quick=(0,), args_thorough=(0,), **C19_CONV)),
         (G, "gosym_part", dict(name="c19_conversion_chains_binary", entry="internal/zzverif.C19Conversions", args_quick=(1,), args_thorough=(1,), **C19_CONV)),
         (G, "gosym_part", dict(name="c19_conversion_chains_switch", entry="internal/zzverif.C19Conversions", args_quick=(2,), args_thorough=(2,), **C19_CONV)),
+        (G, "gosym_part", dict(name="c19_switch_case_order", entry="internal/zzverif.C19SwitchOrder", args_quick=(0,), args_thorough=(1,),
+                               extra_thorough=("-max-paths", "400000"),
+                               required_sites=("accepted-iff-the-cases-have-a-common-type", "switch-type-is-the-common-type-of-all-cases", "switch-kind-is-the-widest-case-kind",
+                                               "switch-type-independent-of-case-order", "operand-is-brought-to-the-result-type"),
+                               assumptions=["binary promotion rule = the real dsl.GetCommonType (its symmetry and kind / width rules are decided by c19_static_types); the switch type must be its left fold over "
+                                            "ALL cases in the order written; kinds ordered integer < floating point < complex",
+                                            "acceptance itself may depend on the case order on the unchanged tree (the binary rule is not associative: int8, uint32, uint64); only two ACCEPTED orders are "
+                                            "required to agree on the static type",
+                                            "case types: 7 numeric primitives (thorough: 13); switch over a 3-case union with type / type / discard patterns; all 6 orders"],
+                               desc="`!switch` with three cases whose expressions are fields of symbolic numeric primitive types, in a symbolic case order, through the real dsl.Validate: accepted iff the "
+                                    "cases have a common type, static type = promotion of all cases (not of some of them), kind = widest case kind, two accepted orders of the same cases agree, and every "
+                                    "case is brought to the switch type by a conversion chain that loses nothing source and result both hold")),
+        (G, "gosym_part", dict(name="c19_alias_operands", entry="internal/zzverif.C19AliasOperands", args_quick=(0,), args_thorough=(1,),
+                               extra_thorough=("-max-paths", "400000"),
+                               required_sites=("accept-reject-independent-of-alias-levels", "resolved-tree-and-static-types-independent-of-alias-levels",
+                                               "integral-classification-follows-the-resolved-primitive", "python-operators-independent-of-alias-levels",
+                                               "cpp-expression-independent-of-alias-levels", "matlab-expression-independent-of-alias-levels"),
+                               assumptions=["a named alias of a primitive is the same type as the primitive (docs/*/language.md, Type aliases); the twin model replaces the alias by the bare primitive, "
+                                            "field names are the same, so read-back expression trees are compared literally",
+                                            "emitted text read back with the target language's grammar (zz_c08_cppexpr.go readers; Python `//` and `/` kept apart); for the switch shape only the Python "
+                                            "`return` expressions are read (C++ / MATLAB statement forms name the operand type in declarations)",
+                                            "P over 6 numeric primitives (thorough: 13), 1-2 alias levels, 5 operators, 14 operand shapes; conversion TARGETS are bare primitives (`x as Alias` makes the "
+                                            "unchanged Python generator panic: reported separately)"],
+                               desc="operands typed through 1-2 alias levels (same field twice, two fields, elements of one vector / fixed vector, with literal / bare-typed field / negation / "
+                                    "conversion, alias-typed subscript index, switch variable used twice, three-operand nest) vs the twin model over the bare primitive: same verdict, same resolved "
+                                    "tree with the same resolved primitive and inserted conversions on every node, dsl.IsIntegralType iff the resolved primitive is an integer, and the same emitted "
+                                    "operator / conversion / literal forms in Python (`//` vs `/`), C++ and MATLAB")),
     ],
-    "C10": [C10_FORMS[f] for f in (0, 1, 3, 4, 5)] + [only_thorough(C10_FORMS[f]) for f in (2, 6)] + C10_SHAPES + [C10_GRAPH_PART, C10_PARSER_PART, C10_DEFUSE_PART, C10_BUDGET_PART] + C10_YAML,  # C10_GRAPH_PART: no hang / panic of the package loader for any import graph
+    "C10": [C10_FORMS[f] for f in (0, 1, 3, 4, 5)] + [only_thorough(C10_FORMS[f]) for f in (2, 6)] + C10_SHAPES + [C10_GRAPH_PART, C10_PARSER_PART, C10_DEFUSE_PART, C10_CYCLE_SPELLINGS_PART, C10_BUDGET_PART] + C10_YAML,  # C10_GRAPH_PART: no hang / panic of the package loader for any import graph
     "C09": [
         (G, "gosym_part", dict(name="c09_base", entry="internal/zzverif.C09Base", required_sites=("base-accepted",), assumptions=C09_ASSUME,
                                desc="the unmodified two-namespace base model validates (guards against an over-rejecting harness)")),
@@ -766,6 +868,18 @@ PARTS = {
                                desc="the 16 type-level rule violations written as (part of) a type argument of the 10 generic carriers x {main, imported namespace} "
                                     "(quick: as record field, and a stream also as type argument of a protocol step; thorough: x {record field, alias, protocol step}): "
                                     "the real dsl.Validate returns an error naming the offending file")),
+        (G, "gosym_part", dict(name="c09_generic_instantiations", entry="internal/zzverif.C09GenericInstantiations", args_quick=(0,), args_thorough=(1,), key_fn=c09_key,
+                               extra_thorough=("-max-paths", "400000"),
+                               required_sites=("violation-rejected", "error-names-offending-file", "well-formed-instantiations-accepted", "no-panic"),
+                               assumptions=["specification: an instantiation on X is ill-formed iff X denotes the local Sample (written `Sample` or through the local alias `MySample`: the union gets "
+                                            "redundant cases) or, where the case is X itself, iff X is a union (a union immediately inside a union); same-named types of the imported namespace "
+                                            "(Lib.Sample, Lib.SampleAlias), other records, primitives and vectors are well-formed arguments",
+                                            "generic forms: Either<T>: [T, Sample]; Holder<T>{e: [T, Sample]}; Outer<T>{e: Either<Wrap<T>>} with Either<U>: [U, Wrap<Sample>] (inner argument mentions the "
+                                            "enclosing parameter); Two<X, Sample> with Two<A, B>: [A, B]; 2 instantiations over 8 arguments x 3 placements (fields of one record, separate aliases, "
+                                            "protocol steps), 3 instantiations over 4 arguments (thorough: 8 arguments x 3 placements)"],
+                               desc="a union that becomes ill-formed only after instantiation is rejected for EVERY instantiation of the generic, whatever other instantiations of the same generic "
+                                    "precede or follow it: 2-3 instantiations of one union-bearing generic on symbolic arguments in symbolic order; the package is rejected, naming main/model.yml, "
+                                    "iff some instantiation is ill-formed, and accepted otherwise")),
         (G, "gosym_part", dict(name="c09_scopes", entry="internal/zzverif.C09Scopes", key_fn=c09_key,
                                required_sites=("violation-rejected", "error-names-offending-file", "own-type-parameter-accepted", "no-panic"), assumptions=C09_GENERIC_ASSUME,
                                desc="scope of type-parameter names: a reference spelled like a type parameter of ANOTHER definition (symbolic name: second parameter of an earlier "
@@ -786,6 +900,7 @@ PARTS = {
                                     "array[] / map, positional or labelled, target field written inline / through an alias / on a sub-record, 1-2 arguments of symbolic static type: the real "
                                     "dsl.Validate accepts iff every index argument is integral (map: has the key type), otherwise rejects naming the file")),
         C13_LAYOUT_PARTS[1],  # a violation in any model file of any layout (sub-directories, hidden neighbours, several documents) is rejected
+        C11_RULES_PART,       # 23 rules x {package, import, previous version, previous version's import} through the real generateImpl / validatePackage (rules must not be top-level only)
     ],
     "C13": [
         (G, "gosym_part", dict(name="c13_order_and_files", entry="internal/zzverif.C13Order", args_quick=(1,), args_thorough=(0,),
@@ -806,6 +921,7 @@ PARTS = {
                                desc="the real dsl.normalizeComment on a symbolic head comment: result equals the independently specified attached block, and prepending detached "
                                     "comment blocks / blank lines (non-documentation comments, whitespace) never changes it")),
         C13_YAML_PART,
+        C13_YAML_BACKENDS_PART,   # pure syntax alternatives yield byte-identical generated code (flat vs nested trees of optional-bearing element types)
     ] + C13_LAYOUT_PARTS,
     "C01": [
         (CC, "c01_cc_kernels", dict()),
@@ -835,6 +951,7 @@ PARTS = {
     ],
     "C16": [
         (CC, "c16_cc_truncation", dict()),
+        ("cc_trunc", "c16_cc_stream_truncation", dict()),   # stream steps (the generated reader's loop over ReadBlocksIntoVector / ReadBlock + Close), ReadVector, ReadMap on the first c bytes of a valid encoding: never read to completion
         (PY, "c16_py_truncation", dict()),
     ],
     "C17": [
@@ -861,6 +978,7 @@ PARTS = {
     "C04": [
         C12_WRITE_IF_NEEDED,   # regenerating into the same directory after a wire-affecting edit replaces the embedded schema (a file is rewritten whenever its content differs at all)
         C04_EMBED_PART,
+        C04_PURE_PART,   # no backend changes the shared model: every backend embeds the same text in whatever order they run
         (G, "gosym_part", dict(name="c04_neutral", entry="internal/zzverif.C04Neutral", args_quick=(1,), args_thorough=(0,),
                                required_sites=("neutral-edit-keeps-schema", "no-comment-in-schema", "no-computed-field-in-schema", "no-position-in-schema"),
                                assumptions=C04_ASSUME,
@@ -899,6 +1017,8 @@ PARTS = {
                                             "which predecessors are incompatible follows docs/cpp/evolution.md (reordered steps, removed step = breaking; added optional field = compatible; int -> string step = partially compatible)"],
                                desc="same with 3 previous versions, labels out of {v1, v2, v3}, every subset of incompatible predecessors, python + json outputs enabled")),
         C13_LAYOUT_PARTS[1],  # no model file escapes validation because of where it lies
+        C11_RULES_PART,       # every language rule, violated in the package / an import / a previous version / its import: real generateImpl fails and writes nothing
+        C18_DIRS_PART,        # a namespace claimed by two different (similarly named) directories never loads, so nothing is generated from it
     ],
     "C02": [
         (PY, "c02_py_converters", dict()),
@@ -941,6 +1061,7 @@ PARTS = {
         C18_GRAPH_PART,
         C18_DAG_PART,
         C18_DAG5_PART,
+        C18_DIRS_PART,
         C18_NS_PART,
         (G, "gosym_part", dict(name="c18_depth", entry="pkg/packaging.VerifC18Depth", args_quick=(12,), args_thorough=(13,),
                                required_sites=("too-deep-rejected",), assumptions=C18_ASSUME, key_fn=c18_key,
@@ -962,6 +1083,7 @@ PARTS = {
                                     "the leaf-terminated chain n: accepted(n) => accepted(n-1); same verdict for both endings; accepted iff n < limit")),
     ],
     "C12": [
+        C12_LOAD_PART,
         (G, "gosym_part", dict(name="c12_diagnostics_map_order", entry="internal/zzverif.C12DiagnosticsMapOrder", args_quick=(2, 12), args_thorough=(2, 12),
                                required_sites=("invalid-model-is-rejected-with-several-errors", "every-map-range-covered", "diagnostics-independent-of-map-iteration-order"),
                                assumptions=["map iteration order is a path decision (verifSetMapOrder(-2-i)): one range of the validation passes at a time iterates in another order; "
@@ -990,6 +1112,18 @@ PARTS = {
                                desc="real dsl.ValidateEvolution + one real generator writing its files (args: versions, generators among cpp/binary.WriteBinary, cpp/types.WriteTypes, "
                                     "cpp/protocols.WriteProtocols, cpp/ndjson.WriteNdJson, python.Generate, range-index bounds, change kinds) run once in insertion order and once with one "
                                     "(symbolically chosen) map range of the evolution pass or the generator iterating in a different order: every generated file is byte-identical")),
+        (G, "gosym_part", dict(name="c12_python_computed_map_order", entry="internal/zzverif.C12PythonComputedMapOrder", args_quick=(16,), args_thorough=(16,),
+                               required_sites=("reference-run-succeeds", "run-succeeds-in-every-map-order", "every-map-range-covered", "output-independent-of-map-iteration-order"),
+                               assumptions=["gosym iterates a Go map in insertion order unless told otherwise; verifSetMapOrder(-2-i) makes the order of the i-th executed range of a map with >= 2 "
+                                            "entries a decision (all permutations up to 3 entries), one range per path, every index covered (every-map-range-covered)",
+                                            "native replay cannot select a map order: a dependence reported by gosym is confirmed natively by repeating the run (up to 48 times) until Go's own order "
+                                            "shows a differing file",
+                                            "one model, no previous versions: record with computed fields calling dimensionIndex(array, runtimeName) on 1, 2 and 3 different named-dimension arrays, "
+                                            "size(array, name), switch expressions over a union and an optional with declared variables, unions of two arities, enum, flags, generic record, aliases; "
+                                            "the permuted region is dsl.Validate + python.Generate (the unchanged Python generator ranges over no map of >= 2 entries on this model; Validate over 7)"],
+                               desc="quick-tier companion of c12_map_order for the Python backend: dsl.Validate + the complete real Python generator on a model rich in computed fields run once in "
+                                    "insertion order and once with one (symbolically chosen) map range iterating in another order: every generated file (types.py, binary.py, ndjson.py, "
+                                    "protocols.py, __init__.py) is byte-identical")),
         (G, "gosym_part", dict(name="c12_evolution_diagnostics_map_order", entry="internal/zzverif.C12EvolutionDiagnostics", args_quick=(6, 1, 1, 6), args_thorough=(6, 3, 2, 6),
                                required_sites=("both-versions-valid", "incompatible-evolution-is-rejected", "every-map-range-covered",
                                                "evolution-diagnostics-independent-of-map-iteration-order"),
@@ -1117,6 +1251,28 @@ PARTS = {
                                                "cwd-is-package-dir-when-idle", "watcher-keeps-running"),
                                assumptions=C20_ASSUME + C20V_ASSUME,
                                desc=C20V_DESC + "; patient editor (waits for the watcher to go idle between saves; args: saves, impatient=0, preemptions=0, number of field types)")),
+        (G, "gosym_part", dict(name="c20_event_kinds", entry="internal/cmd.VerifC20EventKinds", args_quick=(2, 0), args_thorough=(3, 0),
+                               extra_quick=("-replay-sample", "4", "-max-paths", "100000"), extra_thorough=("-replay-sample", "8", "-max-paths", "1000000"),
+                               required_sites=("initial-generation-wrote-output", "watcher-keeps-running", "converged-to-one-shot-output", "invalid-final-contents-leave-output-untouched"),
+                               assumptions=C20_ASSUME + ["a content change is delivered as the event kind the inotify back end of fsnotify produces for the file operation performed: in-place write = "
+                                                         "Write (Create + Write for a new file), rename(2) into the package = Create, unlink = Remove, rename(2) out of the package = Rename; natively "
+                                                         "the real operation is performed on a real directory under a real watcher",
+                                                         "readPackageInfo and ParsePackageContents are token readers of the same files (two model files, either may be absent); the editor waits for "
+                                                         "the watcher to go idle between operations"],
+                               desc="every sequence of 2 (3) file operations out of {in-place save, safe save (written elsewhere, renamed into place), delete, move out of the package} on two model "
+                                    "files with symbolic contents (valid with a symbolic 64-bit length / invalid): after quiescence the output equals a one-shot generateImpl on the final package "
+                                    "contents - a change that reaches the watcher as Create / Remove / Rename counts like one that reaches it as Write")),
+        (G, "gosym_part", dict(name="c20_missing_import_dir", entry="internal/cmd.VerifC20MissingImportDir", args_quick=(0,), args_thorough=(1,),
+                               extra_quick=("-replay-sample", "4", "-max-paths", "100000"), extra_thorough=("-replay-sample", "8", "-max-paths", "1000000"),
+                               required_sites=("initial-generation-wrote-output", "nothing-generated-from-an-invalid-package", "watcher-keeps-running", "cwd-is-package-dir-when-idle",
+                                               "converged-to-one-shot-output", "one-shot-accepts-the-repaired-package"),
+                               assumptions=C20_ASSUME + ["the REAL readPackageInfo runs under gosym (manifests are yaml.Node documents on the virtual file system, decoded by the engine's yaml.v3 model; "
+                                                         "natively their text); ParsePackageContents is a token reader of the model files; the watcher stub refuses to watch a directory that does not "
+                                                         "exist (ENOENT, as inotify_add_watch does)",
+                                                         "main -> dep -> lib; the editor waits for the watcher to go idle between saves (thorough: one preemption)"],
+                               desc="an import path is misspelt (names a directory that does not exist, next to the packages or below one) in the root manifest or in an imported package's manifest, "
+                                    "at start-up or through a save, and is corrected later; then the model of a symbolic package of the closure is edited: the watcher survives the broken state "
+                                    "(checked while broken and at the end), the cwd is the package directory whenever idle, the final output equals the one-shot output")),
     ],
     "C14": [
         C01_CPP_PROTO_WRITER,   # stream steps are laid out as non-empty blocks closed by one 0 in every language (an empty batch writes nothing)
@@ -1130,6 +1286,17 @@ PARTS = {
                                             "type shapes limited to the generator in zz_gen.go (depth bound; union = 2 cases (+null); records 1-2 fields; one generic parameter)"])),
         C02_UNION3_PART,   # Python NDJSON is one of the backends: same tagged/untagged decision as C++ and as the documented JSON kinds
         C14_TRIVIAL_PART,   # the C++ memcpy fast path follows the per-field plan
+        (G, "gosym_part", dict(name="c14_enum_bases", entry="internal/zzverif.C14EnumBase", args_quick=(0,), args_thorough=(0,),
+                               required_sites=("enum-with-integer-base-accepted", "python-enum-element-is-the-resolved-base", "matlab-enum-element-is-the-resolved-base",
+                                               "cpp-declared-underlying-type-is-the-resolved-base", "python-ndjson-enum-base-is-the-resolved-base", "python-dtype-is-the-resolved-base"),
+                               assumptions=["enums are encoded as their base integer type (docs/reference/binary.md); the base may be written as an integer primitive, an alias of it, an alias of an "
+                                            "alias, or left out (int32): the specification side is computed from the symbolic base primitive alone",
+                                            "C++: yardl::binary::WriteEnum / WriteFlags serialize WriteInteger over std::underlying_type_t<E> / E::value_type (serializers.h; the integer kernels are "
+                                            "decided by llsym), so the encoding is that of the type the emitted `enum class E : T` / `struct E : yardl::BaseFlags<T, E>` declares, T resolved through the "
+                                            "emitted `using` declarations",
+                                            "base over all 9 integer primitives x 4 spellings x {enum, flags} x {scalar, optional, vector, map value, stream item}; model through the real dsl.Validate"],
+                               desc="enum / flags definitions whose base is spelled as primitive, alias, alias of alias or omitted: the element serializer of the enum in Python binary and MATLAB binary, "
+                                    "the C++ declared underlying type, the Python NDJSON converter's dtype and the numpy dtype all denote the RESOLVED base primitive")),
         (G, "gosym_part", dict(name="c14_union_classes", entry="internal/zzverif.C14UnionClass", args_quick=(3,), args_thorough=(3,),
                                required_sites=("matlab-union-tag-byte-is-schema-position", "matlab-union-is-method-agrees-with-factory", "matlab-union-tag-list-agrees-with-factory",
                                                "matlab-union-one-factory-per-non-null-case", "matlab-union-reader-factory-is-the-case's",
@@ -1215,7 +1382,10 @@ CLAIMS = {
                 text="Bounded symbolic execution (llsym) of every CodedInputStream read primitive on the first c bytes of a valid encoding with c symbolic and the reader at an arbitrary "
                      "buffer position (including exactly at a refill boundary): the outcome is EndOfStreamException/runtime_error, never a normal return, never a load outside the filled window. "
                      "Four genuine defects found this way were repaired (fix: commit a567eab).",
-                note="Buffer sizes 8-32; values <= 10 bytes; istream::read contract stub (short count only at end of input); ReadBlock/ReadMap under truncation not covered by llsym."),
+                note="Buffer sizes 8-32; values <= 10 bytes; istream::read contract stub (short count only at end of input). Stream steps under truncation (c16_cc_stream_truncation): the consumer loop of a "
+                     "transcribed generated reader (harness/cc/trunc_gen.h) over the real ReadBlocksIntoVector / ReadBlock / VerifyFinished, <= 4 items in <= 4 blocks, capacity 1..4, "
+                     "reader at a refill boundary (arbitrary state in the thorough tier); ReadVector / ReadMap of <= 3 / 2 elements; C++ try/catch in the headers is executed (llsym "
+                     "exception-handling model, self-tested natively on every run)."),
     "C17": dict(engine="llsym+pysym",
                 text="Bounded symbolic execution (llsym, -O0 IR behind a stub yardl.h) of ReadBlocksIntoVector/ReadBlock as a one-call inductive step against a reference block parser: "
                      "arbitrary block partition (<= 4 items), destination capacity 1..4 and prior size, arbitrary reader state: delivered batch = next min(capacity, remaining) items, progress, end-of-stream flag.",
